@@ -13,7 +13,7 @@
    What is NOT proved here: that PhyClone's concrete q / om instantiate the premises (positivity of every weight,
    proposal mass one: C08; symmetric ESS criterion) - those are checked on the implementation by the exact
    transition matrices of harness/pv/props/C01.py. *)
-From PV Require Import Model.Isir Proofs.IsirProofs Model.Csmc Proofs.CsmcSupport Proofs.CsmcInvariant Proofs.AuxVar.
+From PV Require Import Model.Isir Proofs.IsirProofs Model.Csmc Proofs.CsmcSupport Proofs.CsmcInvariant Proofs.AuxVar Proofs.CsmcTarget.
 
 Theorem C01_csmc_invariant :
   forall (A : Type) (q : list A -> dist A) (om : list A -> Qc) (rs : @swarm A -> bool) (n : nat),
@@ -23,6 +23,21 @@ Theorem C01_csmc_invariant :
       = Ggam q om (S (count_upd ops)) [] (fun path => f (rev path)).
 Proof. exact (@csmc_invariant). Qed.
 Print Assumptions C01_csmc_invariant.
+
+(* With importance weights of the form target(t) / target(t-1) / proposal probability (what Kernel.create_particle
+   computes; the last target being the fixed-root density times the permutation density), the invariant measure is
+   the FINAL target on the paths the proposal can reach: sum over reachable paths of g(path) * E[K f] = sum of g * f. *)
+Theorem C01_csmc_leaves_final_target_invariant :
+  forall (A : Type) (supp : list A -> list A) (qp : list A -> A -> Qc) (g : list A -> Qc)
+         (rs : @swarm A -> bool) (n : nat),
+    (forall p a, 0 < qp p a) -> (forall p, 0 < g p) -> (forall p, sumq (map (qp p) (supp p)) = 1) ->
+    (forall m s, rs (bring m s) = rs s) ->
+    forall (ops : list op) (f : list A -> Qc),
+      sumq (map (fun path => g (rev path) * E (pg_kernel (q_of supp qp) (om_of qp g) rs n ops path) f)
+                (conts supp (S (count_upd ops)) []))
+      = sumq (map (fun path => g (rev path) * f (rev path)) (conts supp (S (count_upd ops)) [])).
+Proof. exact (@csmc_final_target_invariant). Qed.
+Print Assumptions C01_csmc_leaves_final_target_invariant.
 
 Theorem C01_aux_variable_invariant :
   forall (S Sig : Type) (pi : dist S) (sigs : list Sig) (cd : Sig -> S -> Qc) (K : Sig -> S -> dist S),
